@@ -65,7 +65,7 @@ func main() {
 		fmt.Fprintln(os.Stderr, err)
 		os.Exit(3)
 	}
-	if *stats != "" {
+	if _, _, child := inChild(); *stats != "" && !child {
 		st := map[string]interface{}{"cases": w.Cases, "ops": w.Ops, "distribution": w.StatsLines(), "extra": c.extra}
 		b, _ := json.MarshalIndent(st, "", " ")
 		_ = os.WriteFile(*stats, b, 0o644)
